@@ -18,9 +18,10 @@ META = {
         'columns, scope on relation and target (C04-R1); R3 Relation equality and hash use name, source, target, lexicon and '
         'subtype, and relation_map() is keyed by it; R4 the importer sends a sense relation to sense_relations iff its target '
         'is a sense id, to sense_synset_relations iff a synset id, and raises otherwise (exhaustive three-way split); '
-        'R5 relations()/get_related() dedupe order-preservingly and pass the requested types to the query.'),
+        'R5 relations()/get_related() dedupe order-preservingly and pass the requested types to the query. R7 a relation target '
+        'built field by field takes id, pos, ili, owning lexicon and rowid from the matching columns of its own row.'),
     'decides': ['termination idioms', 'sibling agreement of relation queries', 'relation identity', 'importer split',
-                'type filter forwarding'],
+                'type filter forwarding', 'visited sets hold entities', 'relation targets carry their own lexicon and rowid'],
     'not_decided': ['exactness of result sets (SQLite semantics)'],
     'assumptions': ['get_related() returns finite lists'],
 }
@@ -429,6 +430,91 @@ def r6_visited_by_entity(ctx, res):
         raise AnalysisError('traversal functions with visited sets not found')
 
 
+# ---------------------------------------------------------------------------
+# R7: an entity built from an unpacked row takes every identifying field from the matching column of that row
+
+PARAM_COLS = {
+    'Synset': {'id': 'synsets.id', 'pos': 'synsets.pos', 'ili': 'ilis.id', '_lexid': 'synsets.lexicon_rowid', '_id': 'synsets.rowid'},
+    'Sense': {'id': 'senses.id', 'entry_id': 'entries.id', 'synset_id': 'synsets.id', '_lexid': 'senses.lexicon_rowid', '_id': 'senses.rowid'},
+    'Word': {'id': 'entries.id', 'pos': 'entries.pos', '_lexid': 'entries.lexicon_rowid', '_id': 'entries.rowid'},
+}
+
+
+def entity_fields_from_row(ctx, res, prefix='entity-fields'):
+    """Synset(...) / Sense(...) / Word(...) built field by field from the row of a query (relation targets): the constructor's
+    id, pos, ili, _lexid and _id are the columns of that same row that hold the entity's id, pos, ILI, owning lexicon and
+    rowid (positions from the prescribed select lists, C01-R7).  An entity given another object's lexicon or rowid
+    compares / hashes / scopes as the wrong thing once a relation crosses a lexicon boundary."""
+    import re as _re
+    from ..speccheck import view
+    from .c01 import SELECT_LISTS, CTOR_PARAMS
+    from .c02 import _parse_summary_expr
+    core = ctx.repo.mod('_core')
+    n = 0
+    for f in core.funcs.values():
+        src = norm(f.node)
+        if not any(f'{c}(' in src for c in PARAM_COLS) or '<locals>' in f.qualname:
+            continue
+        try:
+            v = view(ctx, '_core', f.qualname)
+        except AnalysisError:
+            continue
+        for k, t, g, c, e in v.rows:
+            if k not in ('yield', 'return', 'call', 'store', 'eval') or not any(f'{cn}(' in t for cn in PARAM_COLS):
+                continue
+            try:
+                tree = _parse_summary_expr(t if k != 'store' else t.split(' = ', 1)[1])
+            except AnalysisError:
+                continue
+            loops = [x for x in c if x.startswith('for ')]
+            for call in ast.walk(tree):
+                if not (isinstance(call, ast.Call) and isinstance(call.func, ast.Name) and call.func.id in PARAM_COLS):
+                    continue
+                if any(isinstance(a, ast.Starred) for a in call.args):
+                    continue        # splatted rows: C01-R7
+                cname = call.func.id
+                params = CTOR_PARAMS[cname]
+                bound = dict(zip(params, call.args))
+                for kw in call.keywords:
+                    if kw.arg in PARAM_COLS[cname]:
+                        bound[kw.arg] = kw.value
+                rowvars = set()
+                key = f'{prefix}:{f.qualname}:{cname}'
+                n += 1
+                res.inst(key, v.loc(e), f'{sorted(bound)}')
+                for pn, want_col in PARAM_COLS[cname].items():
+                    a = bound.get(pn)
+                    if a is None:
+                        continue
+                    m = _re.fullmatch(r'_loop_(\d+)\[(\d+)\]', norm(a))
+                    if not m:
+                        if isinstance(a, ast.Constant):
+                            continue
+                        res.find(key, v.loc(e), f'{f.qualname} builds {cname}(...) with {pn}=`{norm(a)[:40].replace("_loop_", "$")}`, which is not a field of '
+                                                f'the row that describes this {cname}')
+                        break
+                    lv, idx = int(m.group(1)), int(m.group(2))
+                    rowvars.add(lv)
+                    q = _re.match(r'for (?:list\(|iter\()?(\w+)\(', loops[lv - 1]) if lv - 1 < len(loops) else None
+                    sl = SELECT_LISTS.get(q.group(1)) if q else None
+                    if sl is None:
+                        continue
+                    if idx >= len(sl) or sl[idx] != want_col:
+                        res.find(key, v.loc(e), f'{f.qualname} builds {cname}(...) with {pn} from column {idx} of {q.group(1)} '
+                                                f'({sl[idx] if idx < len(sl) else "out of range"}); the {pn} of the {cname} is {want_col}')
+                        break
+                else:
+                    if len(rowvars) > 1:
+                        res.find(key, v.loc(e), f'{f.qualname} builds one {cname} from the rows of different loops {sorted(rowvars)}')
+    return n
+
+
+def r7_targets_are_row_entities(ctx, res):
+    n = entity_fields_from_row(ctx, res)
+    if n < 3:
+        raise AnalysisError(f'only {n} field-wise entity constructions found in wn/_core.py')
+
+
 RULES = [
     ('C11-R1', r1_termination, 6),
     ('C11-R2', r2_sibling_relation_queries, 10),
@@ -436,4 +522,5 @@ RULES = [
     ('C11-R4', r4_importer_split, 3),
     ('C11-R5', r5_dedupe, 6),
     ('C11-R6', r6_visited_by_entity, 4),
+    ('C11-R7', r7_targets_are_row_entities, 3),
 ]
